@@ -100,3 +100,28 @@ Theorem C07_nested_call_total : exists r,
                          wit_nested = TOk r.
 Proof. exact (arity_repaired _ _ _). Qed.
 Print Assumptions C07_nested_call_total.
+
+(* guards: in the output of every pass each input statement s is replaced by statements of which
+   the last is s with rewritten expressions (same id, guard, assignees) and the others carry the
+   guard of s, possibly extended by further conjuncts (gext); an extended guard that holds implies
+   the original one *)
+Theorem C07_guards : forall lbr fixed ords t t' st',
+  (eliminate_self_dependencies lang_lhs_sub_reads lbr c07_seed_node_vars c07_sd_sorted ords t = TOk (t', st')
+   /\ forallb sd_leaf (tstmts t) = true) \/
+  (isolate_function_arguments lang_lhs_sub_reads lbr c07_seed_node_vars t = TOk (t', st')
+   /\ forallb fai_leaf (tstmts t) = true) \/
+  (isolate_function_calls lang_lhs_sub_reads lbr c07_seed_node_vars fixed t = TOk (t', st')
+   /\ forallb fci_leaf (tstmts t) = true) \/
+  (expand_IfThenElse lang_lhs_sub_reads lbr c07_seed_node_vars c07_ite_flag_first t = TOk (t', st')
+   /\ forallb ite_leaf (tstmts t) = true) ->
+  derives carries_guard t t'.
+Proof.
+  exact (fun lbr fixed ords =>
+           guards_thm lang_lhs_sub_reads lbr c07_seed_node_vars c07_sd_sorted fixed c07_ite_flag_first ords eq_refl).
+Qed.
+Print Assumptions C07_guards.
+
+Theorem C07_guard_implied : forall F c g s r,
+  gext c g -> cond_t F s g = (r, Ok true) -> exists r', cond_t F s c = (r', Ok true).
+Proof. exact guard_implied. Qed.
+Print Assumptions C07_guard_implied.
